@@ -33,12 +33,12 @@ impl<ElemT> TokenRing<ElemT> {
     /// After reaching the maximum token it wraps around and continues from the lowest one.
     /// The iterator visits each member once, it doesn't have infinite length.
     pub fn ring_range_full(&self, token: Token) -> impl Iterator<Item = &(Token, ElemT)> {
-        let binary_search_index: usize = match self.ring.binary_search_by(|e| e.0.cmp(&token)) {
-            Ok(exact_match_index) => exact_match_index,
-            Err(first_greater_index) => first_greater_index,
-        };
+        // The walk starts at the first member whose token is not lower than the given one.
+        // (A binary search for an exact match could land on any of several members
+        // sharing that token and skip the ones before it.)
+        let first_not_lower_index: usize = self.ring.partition_point(|e| e.0 < token);
 
-        self.ring[binary_search_index..]
+        self.ring[first_not_lower_index..]
             .iter()
             .chain(self.ring.iter())
             .take(self.ring.len())
